@@ -84,7 +84,8 @@ Pre(r) == regs[r]
 AccOps == {"Add", "Sub", "Mul", "Quo", "FMA", "Set", "SetPrec", "SetInt", "SetInt64", "SetUint64", "SetRat",
            "SetMantExp", "NewDecimal", "Parse10",
            "Ctx.Add", "Ctx.Sub", "Ctx.Mul", "Ctx.Quo", "Ctx.FMA", "Ctx.Set"}       \* the same operations through package context
-AccPid(w) == IF Ev.op \in AccOps THEN {"C02"} ELSE w.pid
+AccPid(w) == IF Ev.op \in {"FMA", "Ctx.FMA"} THEN {"C02", "C03"}          \* C03: "... rounded once, with truthful accuracy"
+             ELSE IF Ev.op \in AccOps THEN {"C02"} ELSE w.pid
 
 Aliased == /\ "z" \in DOMAIN Ev
            /\ \/ ("x" \in DOMAIN Ev /\ Ev.x = Ev.z) \/ ("y" \in DOMAIN Ev /\ Ev.y = Ev.z)
